@@ -27,14 +27,19 @@ CASE_TIMEOUT_S = 60
 LEVEL_TEXT = (
     "Proved in Lean for every partitioning (any partition count, empty partitions, any divisions): blockwise_rowlocal "
     "(a per-partition function that distributes over concatenation computes that function of the whole frame: values, "
-    "index labels, row order), zip_blockwise_den / filter_den (binary Blockwise over co-partitioned operands), and "
+    "index labels, row order), zip_blockwise_den / filter_den (binary Blockwise over co-partitioned operands), "
     "daskPipeline_den for arbitrary pipelines of projection / boolean filter / assign over column-expression trees "
-    "(+,-,*,neg,abs,fillna,clip,where,mask,isin,isna,comparisons with NaN semantics,&,|,~,astype(bool->int)); divisions and "
-    "partition count preserved. Validated by correspondence only (not proved): pandas' kernels on one block (the Lean "
-    "eval is diffed against pandas each run), dtypes, str/dt/cat accessors, map/apply(meta), rename, astype, and "
-    "index alignment of operands with different ancestors (MaybeAlignPartitions).")
+    "(+,-,*,neg,abs,fillna,clip,where,mask,isin,isna,comparisons with NaN semantics,&,|,~,astype(bool->int)), and "
+    "aligned_binop_den (pandas outer alignment + elementwise op done partition by partition over co-partitioned operands = "
+    "the aligned op on the whole series; sorted unique labels). daskPipeline_divisions / daskPipeline_nparts hold by "
+    "construction of the model (Blockwise keeps divisions) and are there to be diffed against the real divisions. "
+    "Validated by correspondence only (not proved): pandas' kernels on one block (the Lean eval is diffed against pandas "
+    "each run), dtypes, str/dt/cat accessors, map/apply(meta), rename, astype, the repartitioning step of "
+    "MaybeAlignPartitions, duplicate labels under alignment, filters on reset_index() (section reset).")
 LEVEL_NOTE = ("Trusted: Lean kernel; encoding of numeric frames as integer cells (NaN = none); pandas as the per-block reference "
-              "and as the oracle for dtype/accessor behaviour; pyarrow import stub (object-dtype strings only).")
+              "and as the oracle for dtype/accessor behaviour; pyarrow import stub (object-dtype strings only). Known findings "
+              "(7): one value defect (df.assign(w=other.z) with an empty aligned left partition adopts the right index) and six "
+              "dtype-only classes rooted in value-dependent pandas dtypes on EMPTY partitions / object-dtype strings.")
 TECHNIQUE = "Lean 4 proof (induction over the partition list / pipeline) + differential correspondence at partition and API level"
 ASSUMPTIONS = ["each modelled elementwise operation acts on every row independently and pandas computes CE.eval/BE.eval on it (validated: pipespec vs pandas)",
                "dask runs one Blockwise task per partition (validated: partition-by-partition diff against the model)"]
@@ -471,6 +476,16 @@ def case_align(ctx, inp):
         "proj_list_of_add": lambda p, q: (p + q)[["x", "z"]],
         "proj_of_method": lambda p, q: p.add(q, fill_value=0)[["x"]],
         "proj_scalar_of_method": lambda p, q: p.sub(q)["y"],
+        # operands that are dimension-keeping REDUCTIONS of the same frame (nlargest, value_counts, mode): rows with an index of
+        # their own, which must be aligned like any other differently partitioned operand
+        "self_sub_nlargest": lambda p, q: p.x - p.x.nlargest(2),
+        # (integer values, so that the keys of value_counts have the dtype of the frame's index: the union of an int64 and a
+        # float64 index is a dtype question of its own)
+        "self_add_value_counts": lambda p, q: p.x.fillna(0).astype("int64") + p.x.fillna(0).astype("int64").value_counts(),
+        "self_add_mode": lambda p, q: p.x + p.x.mode(),
+        "self_frame_sub_nlargest": lambda p, q: p - p.nlargest(2, "x"),
+        "self_assign_nsmallest": lambda p, q: p.assign(w=p.y.nsmallest(3)),
+        "self_where_nlargest": lambda p, q: p.x.where(p.y > 0, p.x.nlargest(2)),
     }
     if k == "filter_other":
         # boolean predicate from the other frame with the SAME index
@@ -489,7 +504,7 @@ def case_align(ctx, inp):
     except Exception as e:
         ctx.fail(f"aligned op {k} raised {type(e).__name__}", observed=f"{type(e).__name__}: {e}"[:300])
         return
-    if inp.get("b_unknown") and hasattr(got, "sort_index") and got.index.is_unique:
+    if (inp.get("b_unknown") or k.startswith("self_")) and hasattr(got, "sort_index") and got.index.is_unique:
         got = got.sort_index()      # a shuffle-based alignment does not promise the row order
         exp = exp.sort_index()
     try:
@@ -724,7 +739,8 @@ def gen_align(rng):
             "b_unknown": rng.random() < 0.2,
             "kind": rng.choice(["series_add", "series_sub_fill", "frame_add", "series_cmp", "where_other",
                                 "assign_other", "filter_other", "frame_mul_series", "proj_of_add", "proj_list_of_add",
-                                "proj_of_method", "proj_scalar_of_method"])}
+                                "proj_of_method", "proj_scalar_of_method", "self_sub_nlargest", "self_add_value_counts",
+                                "self_add_mode", "self_frame_sub_nlargest", "self_assign_nsmallest", "self_where_nlargest"])}
 
 
 def gen_reset(rng):
@@ -744,9 +760,9 @@ def generate(ctx):
                    "ops": [["assign", 2, ["add", ["col", 0], ["col", 1]]], ["filter", ["cmp", "gt", ["col", 2], ["lit", 0]]]]}
     yield "pipe", {"ncols": 1, "rows": [[0, None], [0, 1], [1, None]], "dtypes": ["float64"], "lens": [1, 0, 2], "known": True,
                    "ops": [["filter", ["cmp", "ne", ["col", 0], ["col", 0]]], ["assign", 0, ["fillna", ["col", 0], 7]]]}
-    for _ in range(ctx.n(200, 4000)):
+    for _ in range(ctx.n(170, 4000)):
         yield "pipe", gen_pipe(rng, ctx.thorough())
-    for _ in range(ctx.n(140, 3000)):
+    for _ in range(ctx.n(120, 3000)):
         yield "api", gen_api(rng)
     for _ in range(ctx.n(60, 1200)):
         yield "align", gen_align(rng)
